@@ -336,7 +336,11 @@ func (c19) RunCase(c *core.Ctx) {
 		if mode == ref.Parse {
 			out = run.Parse(b, in.data, nil)
 		} else {
-			out = run.Validate(b, in.val)
+			vp := run.NewDest(n, in.val)
+			if c.R.Bool() {
+				spareCapacity(vp.Elem(), 0) // empty slices that still own a buffer (s = s[:0], make([]T, 0, n))
+			}
+			out = run.ValidatePtr(b, vp)
 		}
 		c.Eval(1)
 		det := func(extra map[string]any) map[string]any {
@@ -407,6 +411,34 @@ func (c19) RunCase(c *core.Ctx) {
 		c.NonTrivial(fpf("%s|%s", src, strings.Join(history, ";")))
 		if c.WantSample() {
 			c.Sample(map[string]any{"schema": src, "history": history})
+		}
+	}
+}
+
+// spareCapacity replaces every empty slice by an empty slice with capacity 4.
+func spareCapacity(v reflect.Value, depth int) {
+	if depth > 10 || !v.IsValid() {
+		return
+	}
+	switch v.Kind() {
+	case reflect.Ptr:
+		if !v.IsNil() {
+			spareCapacity(v.Elem(), depth+1)
+		}
+	case reflect.Struct:
+		if v.Type().String() == "time.Time" {
+			return
+		}
+		for i := 0; i < v.NumField(); i++ {
+			spareCapacity(v.Field(i), depth+1)
+		}
+	case reflect.Slice:
+		if v.Len() == 0 && v.CanSet() {
+			v.Set(reflect.MakeSlice(v.Type(), 0, 4))
+			return
+		}
+		for i := 0; i < v.Len(); i++ {
+			spareCapacity(v.Index(i), depth+1)
 		}
 	}
 }
